@@ -44,6 +44,7 @@ MonNext ==
                        [] Ev.ev = "Select" -> [pc EXCEPT ![Ev.i] = "select"]
                        [] Ev.ev = "Release" -> [pc EXCEPT ![Ev.i] = "wait"]
                        [] Ev.ev = "Return" -> [pc EXCEPT ![Ev.i] = "returned"]
+                       [] Ev.ev = "Panic" -> [pc EXCEPT ![Ev.i] = "returned"]     \* the call ended (by a panic)
                        [] Ev.ev = "Stuck" -> [pc EXCEPT ![Ev.i] = "sleeping"]
                        [] OTHER -> pc
             /\ active' = CASE Ev.ev = "Do" -> active + 1 [] Ev.ev = "Done" -> active - 1 [] OTHER -> active
